@@ -2,6 +2,7 @@ package harness
 
 import (
 	"context"
+	"runtime"
 	"time"
 
 	"bbsim/oracle"
@@ -78,6 +79,7 @@ type txnOp struct {
 	stopAt   int // range: fn returns false at this index (-1 never)
 	panicAt  int // range: fn panics at this index (-1 never)
 	putIn    int // range: fn triggers a Put at this index (-1 never)
+	goexitAt int // range: fn ends its goroutine (runtime.Goexit) at this index (-1 never)
 }
 
 type sharedHist struct {
@@ -102,7 +104,7 @@ func c02Run() {
 	for i := range progs {
 		n := simrt.DrawRange(2, 10)
 		for j := 0; j < n; j++ {
-			op := txnOp{pause: drawPause(), cancelAt: simrt.DrawRange(0, 6), stopAt: -1, panicAt: -1, putIn: -1}
+			op := txnOp{pause: drawPause(), cancelAt: simrt.DrawRange(0, 6), stopAt: -1, panicAt: -1, putIn: -1, goexitAt: -1}
 			switch x := simrt.Draw(16); {
 			case x < 6:
 				op.kind = 0
@@ -127,6 +129,10 @@ func c02Run() {
 					op.stopAt = simrt.DrawRange(0, 3)
 				case 1:
 					op.panicAt = simrt.DrawRange(0, 3)
+				case 2:
+					if simrt.Chance(1, 2) {
+						op.goexitAt = simrt.DrawRange(0, 3)
+					}
 				}
 				if simrt.Chance(1, 4) {
 					op.putIn = simrt.DrawRange(0, 2)
@@ -143,7 +149,7 @@ func c02Run() {
 	sharedProgs := make([][]txnOp, nShared)
 	for i := range sharedProgs {
 		for n := simrt.DrawRange(1, 6); n > 0; n-- {
-			op := txnOp{pause: drawPause(), cancelAt: simrt.DrawRange(0, 6)}
+			op := txnOp{pause: drawPause(), cancelAt: simrt.DrawRange(0, 6), goexitAt: -1}
 			switch x := simrt.Draw(8); {
 			case x < 4:
 				op.kind = 0
@@ -383,6 +389,7 @@ func c02Range(r *bufRun, k *bufCons, m *txnModel, op txnOp, inBufRange *int, put
 	defer cancel()
 	calls := 0
 	stopped := false
+	var lastFnRet int64 // stamp taken when the most recent callback returned
 	var inflight *Val
 	fn := func(index int, value interface{}) bool {
 		if index != calls {
@@ -408,9 +415,14 @@ func c02Range(r *bufRun, k *bufCons, m *txnModel, op txnOp, inBufRange *int, put
 			simrt.Fault("callback_panic")
 			panic("c02 scripted callback panic")
 		}
+		if op.goexitAt == index {
+			simrt.Fault("callback_goexit")
+			runtime.Goexit()
+		}
 		// Range commits after the callback returns
 		inflight = nil
 		m.commit(true, false)
+		lastFnRet = simrt.Stamp()
 		if op.stopAt == index {
 			stopped = true
 			return false
@@ -421,7 +433,7 @@ func c02Range(r *bufRun, k *bufCons, m *txnModel, op txnOp, inBufRange *int, put
 	panicked := false
 	rangeInv := simrt.Stamp()
 	startKnown := len(m.known)
-	func() {
+	run := func() {
 		defer func() {
 			if x := recover(); x != nil {
 				if s, ok := x.(string); !ok || s != "c02 scripted callback panic" {
@@ -444,13 +456,33 @@ func c02Range(r *bufRun, k *bufCons, m *txnModel, op txnOp, inBufRange *int, put
 			}()
 			err = bigbuff.Range(ctx, k.c, fn)
 		}
-	}()
+	}
+	goexited := false
+	if op.goexitAt >= 0 {
+		// the callback may end its goroutine: run Range on a goroutine of its own
+		finished := false
+		doneCh := make(chan struct{})
+		go func() {
+			defer close(doneCh)
+			run()
+			finished = true
+		}()
+		<-doneCh
+		goexited = !finished
+	} else {
+		run()
+	}
 	if simrt.Failed() {
 		return false
 	}
 	simrt.Logf("consumer %d range(kind %d) returned err=%v panicked=%v stopped=%v calls=%d inv=%d", k.id, op.kind, err, panicked, stopped, calls, rangeInv)
 	_ = startKnown
 	switch {
+	case goexited:
+		// the callback never returned, so its value must not have been committed: it was rolled back and
+		// is the next value the consumer returns
+		m.cur = 0
+		simrt.Probe("range_callback_goexit")
 	case panicked:
 		// the in-flight value was rolled back: it is the next value the consumer returns
 		m.cur = 0
@@ -468,22 +500,29 @@ func c02Range(r *bufRun, k *bufCons, m *txnModel, op txnOp, inBufRange *int, put
 			return false
 		}
 	}
-	if m.cur != 0 && !panicked {
+	if m.cur != 0 && !panicked && !goexited {
 		simrt.Failf("C02.range-model", "internal: model has %d pending reads after Range", m.cur)
 		return false
 	}
-	if op.kind == 5 && !panicked && err == nil && !stopped && r.stopInv == 0 {
+	if op.kind == 5 && !panicked && !goexited && err == nil && !stopped && r.stopInv == 0 {
 		// Buffer.Range visited everything that had been put before it was called
 		simrt.Probe("buffer_range_to_end")
 		visited := map[Val]bool{}
 		for v := range m.committed {
 			visited[v] = true
 		}
+		// ... and everything put before its last callback returned: the end-of-buffer decision is taken
+		// after that, so those values were available "when it reached the end of the buffer"
+		bound := rangeInv
+		if lastFnRet > bound {
+			bound = lastFnRet
+			simrt.Probe("buffer_range_end_decision_after_callback")
+		}
 		for _, p := range r.puts {
-			if p.ret != 0 && p.ret < rangeInv {
+			if p.ret != 0 && p.ret < bound {
 				for _, v := range p.vals {
 					if !visited[v] && c02Wanted(r, k, v) {
-						simrt.Failf("C02.buffer-range-short", "consumer %d: Buffer.Range returned nil without visiting %v, which was put before the call", k.id, v)
+						simrt.Failf("C02.buffer-range-short", "consumer %d: Buffer.Range returned nil without visiting %v, which had been put before its last callback returned", k.id, v)
 						return false
 					}
 				}
